@@ -11,15 +11,15 @@ import subprocess
 from .assemble import VERIF, REPO
 
 FAMILIES = {
-    'C01': ['stake', 'rewards', 'batch'],
-    'C02': ['stake', 'rewards', 'batch', 'fee_withdraw'],
-    'C03': ['stake', 'batch'],
+    'C01': ['stake', 'rewards', 'batch', 'ibc', 'recover'],
+    'C02': ['stake', 'rewards', 'batch', 'fee_withdraw', 'ibc', 'recover'],
+    'C03': ['stake', 'batch', 'recover'],
     'C04': ['stake', 'batch'],
     'C05': ['batch'],
     'C06': ['batch'],
-    'C07': ['recover', 'stake'],
+    'C07': ['recover', 'ibc', 'stake'],
     'C08': ['auth', 'ownership', 'recover', 'rewards', 'batch'],
-    'C09': ['rewards', 'batch'],
+    'C09': ['rewards', 'batch', 'config'],
     'C10': ['halt', 'auth'],
     'C11': ['rewards', 'fee_withdraw'],
     'C12': ['ownership', 'treasury_ownership'],
@@ -28,7 +28,7 @@ FAMILIES = {
     'C15': ['stake', 'rewards', 'batch', 'auth'],
     'C17': ['queries'],
     'C16': ['stake', 'rewards', 'batch', 'auth', 'ownership', 'fee_withdraw', 'validation', 'recover', 'halt', 'config',
-            'queries', 'treasury', 'treasury_ownership'],
+            'queries', 'treasury', 'treasury_ownership', 'ibc'],
 }
 CASES = 3000
 
